@@ -1075,7 +1075,7 @@ func parse_expr_pratt(tokens []*Token, index int, minPrecedence int) (AstProcess
 	} else if tokens[index].TokenType == NUMBER {
 		intval, err := strconv.Atoi(tokens[index].Lexeme)
 		if err != nil {
-			intval = 0
+			return nil, index, NewParseError(tokens[index], "Error converting lexeme to number value")
 		}
 		lhs = AstProcessNumber{intval}
 	} else if tokens[index].TokenType == IDENTIFIER {
